@@ -157,15 +157,16 @@ func parseTwo(s string, sepIdx int) *IPRange {
 		return nil
 	}
 
-	left, right := net.ParseIP(s[:sepIdx]), net.ParseIP(s[sepIdx+1:])
-	if left4, right4 := left.To4(), right.To4(); left4 == nil && right4 != nil || left4 != nil && right4 == nil {
+	// family is defined by notation, not by value (see parseCIDRorMask): an IPv6 range may begin or end inside
+	// the block of mapped IPv4 addresses, and "::ffff:192.0.2.1-192.0.2.9" mixes families
+	if strings.Contains(s[:sepIdx], ":") != strings.Contains(s[sepIdx+1:], ":") {
 		return nil // must be from same family
 	}
+
+	left, right := net.ParseIP(s[:sepIdx]), net.ParseIP(s[sepIdx+1:])
 	if left == nil || right == nil || bytes.Compare(left, right) > 0 {
 		return nil
 	}
-
-	// left and right must be from one family
 
 	return &IPRange{left: left, right: right}
 }
